@@ -17,7 +17,7 @@ import (
 // uses). For programs without duplicate or cyclic definitions the parser's output must equal
 // the full textual substitution, must contain no definition line, and must be the same in
 // every one of 16 fresh runs (map iteration orders are sampled, not enumerated).
-//@ directive[C07,C03] bounded BoundedDefinitions quick=4 thorough=5 tokens="##!> define a x{{b}}\n" "##!> define b y{{c}}\n" "##!> define c z$1w\n" "p{{a}}q{{b}}\n" "k{{u}}{{c}}\n" "##!^ <{{b}}\n" "##!$ {{a}}>\n"
+//@ directive[C07,C03,C05] bounded BoundedDefinitions quick=4 thorough=5 tokens="##!> define a x{{b}}\n" "##!> define b y{{c}}\n" "##!> define c z$1w\n" "p{{a}}q{{b}}\n" "k{{u}}{{c}}\n" "##!^ <{{b}}\n" "##!$ {{a}}>\n" "r{{{c}}}\n"
 
 func BoundedDefinitions(in string) string {
 	zerolog.SetGlobalLevel(zerolog.Disabled)
